@@ -464,6 +464,18 @@ class EOM:
             results.setHydroResults(hydroResultsMax)
             results.setBoltzmannBackground(boltzmannBackgroundMax)
             results.setBoltzmannResults(boltzmannResultsMax)
+            if wallPressureResultsMax is None and not (
+                self.successWallPressure and self.successTemperatureProfile
+            ):
+                # The pressure at wallVelocityMax was computed above and did not
+                # converge, so its sign cannot be trusted.
+                results.setSuccessState(
+                    False,
+                    ESolutionType.ERROR,
+                    "The pressure at the maximum wall velocity has not converged, "
+                    "cannot conclude that the wall runs away.",
+                )
+                return results
             results.setSuccessState(
                 True,
                 ESolutionType.RUNAWAY,
